@@ -153,7 +153,41 @@ class C07(PropBase):
                 out.append(self.to_run_case(rng, self.gen_case(rng, "random"), kind))
         for _ in range(jn):
             out.append(self.to_run_case(rng, self.gen_case(rng, "random")))
+        for _ in range(8 if tier == "quick" else 120):
+            out.append(self.gen_fallback_groups(rng))
         return out
+
+    def gen_fallback_groups(self, rng):
+        """txn-time conversion inside the balance-group report of a zone whose clock is set back over midnight: the groups
+        are handled in period order, which is then *not* instant order, while every transaction still takes the rate
+        valid at its own instant.  Judged without the model (named zone): per (account, commodity) the converted sums of
+        the groups add up to the converted balance report of the same run, and every figure is amount x the rate at or
+        before the transaction."""
+        t = 1289098860            # 2010-11-07T03:01:00Z: America/Goose_Bay goes from 00:01 back to 23:01
+        instants = [(t - 30), (t + 1740), (t + 5340)]
+        if rng.random() < 0.5:
+            instants.append(t + rng.choice([600, 2400, 4000, 7000]))
+        rates = [rng.choice(["2", "3", "1.5"]), rng.choice(["5", "7", "0.25"]), rng.choice(["11", "13"])]
+        pts = [t - 100, t + rng.choice([100, 900, 1700]), t + rng.choice([1800, 3000, 5000])]
+        prices = "".join("P %s XAG %s EUR\n" % (
+            (common.EPOCH + datetime.timedelta(seconds=p)).strftime("%Y-%m-%dT%H:%M:%SZ"), r) for p, r in zip(pts, rates))
+        txns = []
+        for i, sec in enumerate(instants):
+            h = common.gen_header(rng, {}, {"p_uuid": 0.0, "p_loc": 0.0, "p_tags": 0.0, "p_comments": 0.0, "p_code": 0.0, "p_desc": 0.0})
+            h["ts"] = {"ns": str(sec * 10 ** 9), "off": 0,
+                       "text": (common.EPOCH + datetime.timedelta(seconds=sec)).strftime("%Y-%m-%dT%H:%M:%SZ")}
+            unit = {"comm": "XAG", "opening": None, "closing": None}
+            amt = str(rng.choice([1, 2, 10, 100]))
+            h["posts"] = [{"acct": "a:" + "pq"[i % 2], "amount": amt, "unit": unit, "comment": None},
+                          {"acct": "e:x", "amount": "-" + amt, "unit": unit, "comment": None}]
+            h["last"] = None
+            txns.append(h)
+        rng.shuffle(txns)
+        cfg = {"price": {"db": prices, "lookup": "txn-time"}, "report_commodity": "EUR",
+               "report_tz": "America/Goose_Bay", "group_by": rng.choice(["date", "iso-week-date", "date"])}
+        return {"op": "run", "kind": "jr:fallback-groups", "cfg": cfg, "txns": txns, "oracle_only": True,
+                "text": common.render_journal(txns, common.gen_layout(rng)), "want": ["txns", "balance", "balgrp"],
+                "fb_prices": [[p, r] for p, r in zip(pts, rates)]}
 
     def to_run_case(self, rng, pc, jr_kind=None):
         """a price-op case as an op `run` case: balance, register and balance-group reports of the same settings"""
@@ -344,6 +378,8 @@ class C07(PropBase):
         return b
 
     def model_case(self, case):
+        if case.get("oracle_only"):
+            return None
         if case.get("op") == "run":
             c = {"op": "run", "cfg": model_cfg(case.get("cfg", {})), "txns": case["txns"],
                  "want": ["balance", "register", "balgrp"], "price": self.price_block(case),
@@ -398,7 +434,43 @@ class C07(PropBase):
         return None
 
     # -- the property on the implementation alone
+    def oracle_fallback_groups(self, case, impl):
+        if impl.get("r") != "OK":
+            return {"sig": "unexpected-status", "what": "valid journal + price file not processed: %s" % impl.get("r")}
+        bal, grp = impl["out"].get("balance", {}), impl["out"].get("balgrp", {})
+        if bal.get("r") != "OK" or grp.get("r") != "OK":
+            return {"sig": "conv-report-failed", "what": "balance %s / balance-group %s under txn-time conversion" % (bal.get("r"), grp.get("r"))}
+        pb = common.parse_balance_report(bal["v"])
+        pg = common.parse_balgrp_report(grp["v"])
+        if pb is None or pg is None:
+            return {"sig": "conv-report-unreadable", "what": "balance / balance-group text cannot be read"}
+        # exact expectation: every posting valued at the latest rate at or before its transaction
+        want = {}
+        for t in case["txns"]:
+            sec = int(t["ts"]["ns"]) // 10 ** 9
+            rate = None
+            for p, r in sorted(case["fb_prices"]):
+                if p <= sec:
+                    rate = F(r)
+            for po in t["posts"]:
+                k = ("EUR" if rate is not None else "XAG", po["acct"])
+                want[k] = want.get(k, F(0)) + F(po["amount"]) * (rate if rate is not None else 1)
+        got_bal = {(r[0], r[1]): F(r[2]) for r in pb[0] if F(r[2]) != 0 or (r[0], r[1]) in want}
+        got_grp = {}
+        for g in pg:
+            for r in g["rows"]:
+                got_grp[(r[0], r[1])] = got_grp.get((r[0], r[1]), F(0)) + F(r[2])
+        for k, v in want.items():
+            if got_bal.get(k, F(0)) != v:
+                return {"sig": "conv-balance-figures", "what": "balance report: %s is %s, amount x rate at the transactions' instants gives %s" % (k, got_bal.get(k), v)}
+            if got_grp.get(k, F(0)) != v:
+                return {"sig": "conv-balgrp-figures", "what": "balance-group report (zone %s, %s): the groups' sums of %s add up to %s, amount x rate at the "
+                        "transactions' own instants gives %s" % (case["cfg"]["report_tz"], case["cfg"]["group_by"], k, got_grp.get(k), v)}
+        return None
+
     def oracle(self, case, impl):
+        if case.get("kind") == "jr:fallback-groups":
+            return self.oracle_fallback_groups(case, impl)
         if case.get("op") == "run":
             return self.oracle_run(case, impl)
         r = impl.get("r")
@@ -858,6 +930,8 @@ class C07(PropBase):
         return best
 
     def nontrivial(self, case, impl):
+        if case.get("oracle_only"):
+            return impl.get("r") == "OK"
         if case.get("op") == "run":
             if impl.get("r") != "OK" or impl["out"].get("txns", {}).get("r") != "OK":
                 return False
